@@ -1132,3 +1132,97 @@ func planC03(tier string, seed int64) (*Plan, error) {
 }
 
 func init() { Plans["C03"] = planC03 }
+
+// ---- C04 ----
+
+func planC04(tier string, seed int64) (*Plan, error) {
+	p := &Plan{MustReach: []string{"done", "url"}}
+	thorough := tier == "thorough"
+	core, gfm, all, allX := cfg("core", "", ""), cfg("gfm", "", ""), cfg(allExt, "autoid,attr", ""), cfg(allExt, "attr", "xhtml")
+	constructs := []struct{ pre, post string }{
+		{"[a](", ")"}, {"[a](<", ">)"}, {"![a](", ")"}, {"[a]: ", "\n\n[a]"}, {"<", ">"}, {"[a]: <", "> 't'\n\n![b][a]"}, {"x ", " y"},
+	}
+	schemes := []string{"javascript:alert(1)", "vbscript:x", "file:///etc", "data:text/html,x", "data:image/png;b", "data:image/svg+xml;b", "JaVaScRiPt:a"}
+	var jobs []interp.Job
+	w := 2
+	r := rand.New(rand.NewSource(seed))
+	for ci, c := range constructs {
+		for si, s := range schemes {
+			colon := 0
+			for colon < len(s) && s[colon] != ':' {
+				colon++
+			}
+			conf := []string{core, all, gfm, allX}[(ci+si)%4]
+			if c.pre == "x " {
+				conf = gfm // extended autolinks
+			}
+			doc := c.pre + s + c.post
+			base := len(c.pre)
+			for q := -1; q <= colon+1; q++ {
+				// quick: a seeded third of the window positions per (construct, scheme); thorough: all, and 3-byte windows
+				if !thorough && r.Intn(3) != 0 && q != colon-1 && q != -1 {
+					continue
+				}
+				pos := base + q
+				if pos < 0 || pos+w > len(doc) {
+					continue
+				}
+				jobs = append(jobs, job("H_c04_urls", "cfg", conf, "seed", doc, "pos", pos, "window", w))
+				if thorough && q%2 == 0 && pos+3 <= len(doc) {
+					jobs = append(jobs, job("H_c04_urls", "cfg", conf, "seed", doc, "pos", pos, "window", 3))
+				}
+			}
+		}
+	}
+	// obfuscations that change the length: references and escapes with symbolic digits/letters
+	obf := []tmpl{
+		{"[a](&#XX6;avascript:a)", 7, 2}, {"[a](&#x6XX;avascript:a)", 9, 2}, {"[a](javascript&#XX;a)", 16, 2}, {"[a](javascript&#xXX;a)", 17, 2},
+		{"[a](javascript&XXlon;a)", 15, 2}, {"[a](javascript&coXXn;a)", 17, 2}, {"[a](java&#XX;script:a)", 10, 2}, {"[a](java&TXX;script:a)", 10, 2}, {"[a](javascript\\XXa)", 15, 2},
+		{"[a](\\XXavascript:a)", 5, 2}, {"[a](XXjavascript:a)", 4, 2}, {"[a](<XXjavascript:a>)", 5, 2}, {"[a](javascript%3XXa)", 16, 2}, {"[a](%6XXavascript:a)", 6, 2},
+		{"![a](&#XX6;avascript:a)", 8, 2}, {"[a]: javascript&#XX;a\n\n[a]", 17, 2}, {"[a]: &#XX6;avascript:a\n\n![a]", 8, 2}, {"<javascript&#XX;a>", 13, 2}, {"<&#XX6;avascript:a>", 4, 2},
+		{"[a](dat&#XX;:text/html,x)", 9, 2}, {"[a](data:image/XXg;x)", 15, 2}, {"[a](data:image/svgXXml;x)", 18, 2}, {"![a](data:imageXXpng;x)", 15, 2}, {"[a](fil&#xXX;:///x)", 10, 2},
+		{"[a](vbscript&#XX;x)", 14, 2}, {"[a](&NewLine;javascriptXXa)", 23, 2}, {"[a](java\nscriptXXa)", 15, 2}, {"[a](<java scriptXXa>)", 16, 2},
+	}
+	oc := []string{all}
+	if thorough {
+		oc = []string{all, core, allX}
+	}
+	jobs = append(jobs, tmplJobs("H_c04_urls", obf, oc)...)
+	// free prefixes before a concrete ':' (S(3)/S(4) over the whole byte range)
+	np := 3
+	if thorough {
+		np = 4
+	}
+	for _, c := range constructs[:5] {
+		for n := 1; n <= np; n++ {
+			if n == np && c.pre != "[a](" && !thorough {
+				continue
+			}
+			hole := ""
+			for i := 0; i < n; i++ {
+				hole += "X"
+			}
+			doc := c.pre + hole + "le:a" + c.post
+			jobs = append(jobs, job("H_c04_urls", "cfg", core, "seed", doc, "pos", len(c.pre), "window", n))
+		}
+	}
+	// generic inputs (any URL the parser can find in short free-form text)
+	for n := 0; n <= 2; n++ {
+		jobs = append(jobs, job("H_c04_urls", "cfg", all, "n", n))
+	}
+	jobs = append(jobs, job("H_c04_urls", "cfg", core, "n", 6, "alpha", "<>file:"))
+	jobs = append(jobs, job("H_c04_urls", "cfg", core, "n", 7, "alpha", "[]()a:"), job("H_c04_urls", "cfg", gfm, "n", 5, "alpha", "w.a:/ h"))
+	p.Jobs = jobs
+	p.Bounds = map[string]interface{}{
+		"T(url)":        fmt.Sprintf("%d constructs (inline destination bare and <...>, image source, reference definition used by a link and by an image, <...> autolink, bare text with GFM extended autolinks) x %d scheme skeletons %q, each with a %d-byte fully symbolic window slid over the scheme from one byte before it to one byte behind the colon (quick: a seeded third of the offsets plus the offsets at the colon and before the scheme; thorough: every offset, and 3-byte windows at every second offset)", len(constructs), len(schemes), schemes, w),
+		"obfuscations":  fmt.Sprintf("%d templates with symbolic digits/letters inside numeric, hexadecimal and named character references, backslash escapes, percent escapes, leading bytes, embedded whitespace, data: media types x %v", len(obf), oc),
+		"free prefixes": fmt.Sprintf("1..%d fully symbolic bytes followed by 'le:a' in the first 5 constructs", np),
+		"generic":       "S(2) all extensions; S(6,{<,>,f,i,l,e,:}), S(7,{[,],(,),a,:}) core, S(5,{w,.,a,:,/,space,h}) GFM",
+		"normaliser":    "harness-side, browser-like: decode numeric/hex/selected named references once, strip leading bytes <= 0x20, remove TAB/LF/CR, ASCII lower-case; then the scheme test of the property",
+		"outside":       "wider windows; URLs made dangerous only by a browser quirk outside the WHATWG URL parser's scheme rules",
+	}
+	p.Rule = "every href and src value of every path is normalised symbolically and tested against the forbidden schemes"
+	return p, nil
+}
+
+func init() { Plans["C04"] = planC04 }
